@@ -40,6 +40,14 @@ func genGlobals(repo string) (string, error) {
 							switch v := vs.Values[i].(type) {
 							case *ast.CallExpr:
 								init = "call:" + callName(v)
+								// a constructor of the same package is classified by what it returns
+								if id, ok := v.Fun.(*ast.Ident); ok {
+									for _, fd := range p.allFuncs() {
+										if fd.Recv == nil && fd.Name.Name == id.Name && fd.Type.Results != nil && len(fd.Type.Results.List) == 1 {
+											init = "returns:" + exprString(fd.Type.Results.List[0].Type)
+										}
+									}
+								}
 							case *ast.CompositeLit:
 								init = "literal"
 							case *ast.UnaryExpr:
